@@ -17,7 +17,6 @@ package s3event
 import (
 	"context"
 	"encoding/json"
-	"encoding/xml"
 	"fmt"
 	"os"
 	"sync"
@@ -25,7 +24,6 @@ import (
 
 	"github.com/gofiber/fiber/v2"
 	"github.com/segmentio/kafka-go"
-	"github.com/versity/versitygw/s3response"
 )
 
 var sequencer = 0
@@ -82,15 +80,13 @@ func (ks *Kafka) SendEvent(ctx *fiber.Ctx, meta EventMeta) {
 	}
 
 	if meta.EventName == EventObjectRemovedDeleteObjects {
-		var dObj s3response.DeleteObjects
-
-		if err := xml.Unmarshal(ctx.Body(), &dObj); err != nil {
-			fmt.Fprintf(os.Stderr, "failed to parse delete objects input payload: %v\n", err.Error())
-			return
-		}
-
+		// only the objects that were deleted, not every key of the request:
+		// a key refused or failed individually has no event
 		// Events aren't send in correct order
-		for _, obj := range dObj.Objects {
+		for _, obj := range meta.DeletedObjects {
+			if obj.Key == nil {
+				continue
+			}
 			key := *obj.Key
 			schema := createEventSchema(ctx, meta, ConfigurationIdWebhook)
 			schema.Records[0].S3.Object.Key = key
